@@ -39,6 +39,7 @@ type RuleOp struct {
 	HasAction bool   `json:"has_action,omitempty"`
 	OHC       *OHC   `json:"ohc,omitempty"`
 	BAR       uint8  `json:"bar,omitempty"`
+	IDLast    bool   `json:"id_last,omitempty"` // FAR: the FAR ID IE stands last in the grouped IE (IEs may come in any order)
 	// QER
 	QFI  uint8 `json:"qfi,omitempty"`
 	Gate uint8 `json:"gate,omitempty"`
@@ -147,6 +148,9 @@ func (r RuleOp) IE() *ie.IE {
 			}
 			if r.BAR != 0 {
 				cs = append(cs, ie.NewBARID(r.BAR))
+			}
+			if r.IDLast {
+				cs = append(cs[1:len(cs):len(cs)], cs[0])
 			}
 			if r.Verb == "create" {
 				return ie.NewCreateFAR(cs...)
